@@ -111,7 +111,7 @@ def run_histories(run, prop, histories, root_kind, nobj, want, aspects, classes=
     run.cov["classes"] = sorted(set(run.cov.get("classes", [])) | {j[0] for j in jobs})
 
 
-def generic(prop, tier, nobj, maxh, want, aspects, rule, assumptions, sim_len=10, classes=None, bfs_k=500):
+def generic(prop, tier, nobj, maxh, want, aspects, rule, assumptions, sim_len=10, classes=None, bfs_k=500, extra=None):
     run = common.Run(prop, tier)
     run.assumptions += assumptions
     run.cov["rule"] = rule
@@ -125,6 +125,8 @@ def generic(prop, tier, nobj, maxh, want, aspects, rule, assumptions, sim_len=10
         run.cov.setdefault("histories", {})[rk] = {"bfs_edge_paths": len(hs), "simulated": len(hs2)}
         run_histories(run, prop, hs + hs2, rk, nobj, want, aspects, classes=classes,
                       wc_modes=(False,) if quick else (False, True))
+    if extra:
+        extra(run, tier)
     return run.finish()
 
 
@@ -150,4 +152,156 @@ def check_C02(tier):
               "documents (null / scalar / other container kind at any position); every read through a root or a "
               "still-attached child must return the model value, every write through an attached child must "
               "persist"),
-        assumptions=[BOUNDS, FAKES, "reads compared with type-exact equality; attachment lost => handle dropped"])
+        assumptions=[BOUNDS, FAKES, "reads compared with type-exact equality; attachment lost => handle dropped",
+                     "Merge.tla: the in-place merge transcribed on identity trees, checked by TLC on ALL ordered pairs of "
+                     "bounded documents (130 k dict pairs quick); sampled pairs replayed with every container of the old "
+                     "document retained as a child handle"],
+        extra=merge_pairs)
+
+
+# ------------------------------------------------------------------ Merge.tla: all (old, new) pairs
+def _paths(v, p=()):
+    out = []
+    if v["t"] == "d":
+        out.append(p)
+        for k, x in (v["m"].items() if isinstance(v["m"], dict) else []):
+            out += _paths(x, p + (k,))
+    elif v["t"] == "l":
+        out.append(p)
+        for i, x in enumerate(v["s"]):
+            out += _paths(x, p + (i,))
+    return out
+
+
+def _get(py, path):
+    for s in path:
+        py = py[s]
+    return py
+
+
+def _attached(old, new, path):
+    for n in range(len(path) + 1):
+        try:
+            a, b = _get(old, path[:n]), _get(new, path[:n])
+        except (KeyError, IndexError, TypeError):
+            return False
+        if not isinstance(a, (dict, list)) or type(a) is not type(b):
+            return False
+    return True
+
+
+def merge_pair_case(spec, old_t, new_t, rnd):
+    """old in the backend, handles on every container of old retained, outside writer stores new."""
+    import copy
+    old, new = val.to_py(old_t), val.to_py(new_t)
+    res = spec.new_resource()
+    problems = []
+    try:
+        res.write_raw(copy.deepcopy(old))
+        root = res.new_object()
+        handles = {}
+        for p in _paths(old_t):
+            o = root
+            for s in p:
+                o = o[s]
+            handles[p] = o
+        res.write_raw(copy.deepcopy(new))
+        seen = root()
+        if not val.same_typed(seen, new):
+            problems.append(f"after the outside rewrite the root reads {seen!r}, backend holds {new!r}")
+            return problems
+        att = [p for p in handles if p and _attached(old, new, p)]
+        for p in att:
+            h = handles[p]
+            try:
+                got = h()
+            except Exception as e:  # noqa: BLE001
+                problems.append(f"read through the child handle at {p} raised {type(e).__name__}: {e}")
+                continue
+            want = _get(new, p)
+            if not val.same_typed(got, want):
+                problems.append(f"child handle at {p} reads {got!r}, backend position holds {want!r}")
+        if att and not problems:
+            p = rnd.choice(att)
+            h = handles[p]
+            exp = copy.deepcopy(new)
+            tgt = _get(exp, p)
+            if isinstance(tgt, dict):
+                h["zz"] = [1]
+                tgt["zz"] = [1]
+            else:
+                h.append({"zz": None})
+                tgt.append({"zz": None})
+            raw = res.read_raw()
+            if not val.same_typed(raw, exp):
+                problems.append(f"write through the still-attached child at {p} gave backend {raw!r}, expected {exp!r}")
+        return problems
+    finally:
+        res.dispose()
+
+
+def _merge_job(args):
+    spec_name, pairs, seed = args
+    env.install()
+    spec = env.spec_by_name(spec_name)
+    rnd = random.Random(seed)
+    out = []
+    for (o, n) in pairs:
+        try:
+            pr = merge_pair_case(spec, o, n, rnd)
+        except Exception:  # noqa: BLE001
+            import traceback
+            pr = ["HARNESS " + traceback.format_exc(limit=6)]
+        for p in pr:
+            out.append({"cls": spec_name, "op": "outside-rewrite", "aspect": "harness" if p.startswith("HARNESS") else "ret",
+                        "detail": p, "old": o, "new": n, "replay_fn": ["chk_contract", "replay_merge"]})
+    return out
+
+
+def replay_merge(prop, case):
+    env.install()
+    pr = merge_pair_case(env.spec_by_name(case["cls"]), case["old"], case["new"], random.Random(0))
+    if pr:
+        print(f"VIOLATION property={prop} replay=(reproduced) {pr[0]}")
+        return 1
+    print("not reproduced on this tree")
+    return 0
+
+
+def merge_pairs(run, tier):
+    """Merge.tla: TLC checks the transcribed in-place merge on ALL ordered pairs of bounded documents and exports a
+    sample of pairs; the harness replays them with every container of `old` retained as a child handle."""
+    for kind in ("d", "l"):
+        consts = {"Kind": f'"{kind}"', "Tier": '"quick"' if tier == "quick" else '"thorough"',
+                  "SampleK": "60" if tier == "quick" else "40", "Dev_NoneIsNoop": "FALSE", "Dev_PyEqKeepsOld": "FALSE"}
+        cfg = tlc.cfg_text(constants=consts, invariants=["C02_MergeEqualsNew", "C02_HandlesKept"],
+                           action_constraints=["Export"])
+        res = tlc.run("MC_Merge", cfg, name=f"merge-{kind}", seed=common.seed(), timeout=2400)
+        if not res.ok:
+            run.machinery_error(f"TLC MC_Merge {kind}: {res.violated} {res.errors[:2]} {res.tail(8)}")
+            continue
+        run.add_tlc(res, f"Merge.tla all (old,new) pairs kind={kind}")
+        pairs = [(val.norm(r["old"]), val.norm(r["new"])) for r in res.records("PAIR")]
+        for (o, n) in pairs:
+            run._distinct.add(("pair", val.canon(o), val.canon(n)))
+        jobs = []
+        for spec in env.specs(kind=kind):
+            for i, ch in enumerate(common.chunks(pairs, 4)):
+                jobs.append((spec.name, ch, common.seed() * 100 + i))
+        for out in common.pmap(_merge_job, jobs):
+            for v in out:
+                if v["aspect"] == "harness":
+                    run.machinery_error(v["detail"])
+                else:
+                    run.violation(v)
+        run.cov["evaluations"] += len(pairs) * len(env.specs(kind=kind))
+        run.cov["traces_validated_against_impl"] += len(pairs) * len(env.specs(kind=kind))
+        run.cov.setdefault("merge_pairs_replayed", {})[kind] = len(pairs)
+    # the two deviation flags must have witnesses
+    for flag, tier_ in (("Dev_NoneIsNoop", "quick"), ("Dev_PyEqKeepsOld", "eq")):
+        consts = {"Kind": '"d"', "Tier": f'"{tier_}"', "SampleK": "1000000", "Dev_NoneIsNoop": "FALSE", "Dev_PyEqKeepsOld": "FALSE"}
+        consts[flag] = "TRUE"
+        r2 = tlc.run("MC_Merge", tlc.cfg_text(constants=consts, invariants=["C02_MergeEqualsNew"]), name=f"merge-{flag}", timeout=900)
+        if r2.violated != "C02_MergeEqualsNew":
+            run.machinery_error(f"deviation flag {flag} of Merge.tla has no witness")
+        run.cov.setdefault("deviation_witnesses", {})[flag] = str(r2.violated)
